@@ -7,7 +7,8 @@
                       result `l`, or `l` is full (`capOf r n` elements: `n`, or COUNT if smaller) and all of `l` comes
                       before `x`
 
-  Hypotheses added to the brief's: `SeedOk r p` (a DATE seed has no BYHOUR/BYMINUTE/BYSECOND) and `YlySup r`
+  Hypothesis added to the brief's (`SeedOk r p`, a DATE seed has no BYHOUR/BYMINUTE/BYSECOND, is gone: `make_enum`
+  ignores these parts next to a DATE seed, as the specification's `TimeExp` does): `YlySup r`
   (`RrYlyRfc1`): no BYEASTER; BYMONTHDAY / BYMONTH at most 62 / 12 values (the parser's bit sets); BYDAY ordinals
   within -53..53 (ordinal -54, which `WfRule` admits, wraps around in `ycw_get_yday`); and BYDAY next to BYWEEKNO
   (without BYYEARDAY / BYMONTHDAY) has plain weekdays only (RFC 5545 forbids ordinals there; the code skips such
@@ -49,14 +50,14 @@ theorem ylyLoop_aLoop (r : Rule) (p : Inst) (nti : Nat) (hsh : r.shift = 0) (hpo
   exact h
 
 /-- what a year's period offers is an instance of the rule -/
-theorem yE_inst (r : Rule) (p : Inst) (nti : Nat) (hr : WfRule r) (hp : WfInst p) (hs : SeedOk r p) (hsup : YlySup r)
+theorem yE_inst (r : Rule) (p : Inst) (nti : Nat) (hr : WfRule r) (hp : WfInst p) (hsup : YlySup r)
     (hy : 1901 ≤ p.y) (y : Nat) (hq : yReach r p y) (hy2 : y ≤ 2099) (z : Inst) (hz : z ∈ yE r p nti y) :
     YearlyInst r p z := by
   obtain ⟨j, hj⟩ := hq
   have : 0 ≤ j * r.inter := Nat.zero_le _
   obtain ⟨e1, e2, e2', e3, e4, e5, e6, e7, e8, e9⟩ :=
     (mem_yE_iff r p nti hr hp hsup hy y ⟨by omega, hy2⟩ z).1 hz
-  obtain ⟨t1, t2⟩ := exp_of_enum hr hp hs e7 e8 e9
+  obtain ⟨t1, t2⟩ := exp_of_enum hr hp e7 e8 e9
   exact (ylyInst_iff r p z).2 ⟨⟨e2, e2', e3, e4, e6, t1⟩, ⟨j, by rw [e1]; exact hj⟩, e5, t2⟩
 
 def ylyFuel (nti : Nat) : Nat := 64 * (nti + 1) + 2101
@@ -84,7 +85,7 @@ theorem fillYly_cases (r : Rule) (p : Inst) (n : Nat) (l : List Inst) (hr : WfRu
 /-- C01, soundness of the yearly filler (no SHIFT, no BYSETPOS, no BYEASTER): every instant written is an instance of
 the rule anchored at the seed -/
 theorem fillYly_sound (r : Rule) (p : Inst) (n : Nat) (l : List Inst) (hr : WfRule r) (hp : WfInst p)
-    (hs : SeedOk r p) (_hn : n ≤ 64) (hy : 1901 ≤ p.y) (hsup : YlySup r) (hsh : r.shift = 0) (hpos : r.pos = [])
+    (_hn : n ≤ 64) (hy : 1901 ≤ p.y) (hsup : YlySup r) (hsh : r.shift = 0) (hpos : r.pos = [])
     (h : fillYly r p n = some l) : ∀ x ∈ l, YearlyInst r p x ∧ SetposOk r p x := by
   intro x hx
   refine ⟨?_, Or.inl hpos⟩
@@ -96,13 +97,13 @@ theorem fillYly_sound (r : Rule) (p : Inst) (n : Nat) (l : List Inst) (hr : WfRu
     rcases aLoop_mem (mkFillCtx r p nti) 64 _ _ _ (yly_loopHyp r p nti hr hp hsup hy) (ylyFuel nti) p.y 64 {}
       ⟨0, by simp⟩ x hx with h | ⟨q', r1, r2, r3, _⟩
     · cases h
-    · exact yE_inst r p nti hr hp hs hsup hy q' r1 r2 x r3
+    · exact yE_inst r p nti hr hp hsup hy q' r1 r2 x r3
 
 /-- C01, completeness of the yearly filler (no SHIFT, no BYSETPOS, no BYEASTER): an instance `x` at or after the seed,
 not after UNTIL and not after 2099 is in the result `l`, or `l` is full (`capOf r n` elements) and all of it comes
 before `x` -/
 theorem fillYly_complete (r : Rule) (p : Inst) (n : Nat) (l : List Inst) (hr : WfRule r) (hp : WfInst p)
-    (hs : SeedOk r p) (_hn : n ≤ 64) (hy : 1901 ≤ p.y) (hsup : YlySup r) (hsh : r.shift = 0) (hpos : r.pos = [])
+    (_hn : n ≤ 64) (hy : 1901 ≤ p.y) (hsup : YlySup r) (hsh : r.shift = 0) (hpos : r.pos = [])
     (h : fillYly r p n = some l)
     (x : Inst) (hx : YearlyInst r p x) (hge : absOf p ≤ absOf x) (hle : ltP r.untl x = false) (hxy : x.y ≤ 2099) :
     x ∈ l ∨ (l.length = capOf r n ∧ ∀ z ∈ l, ltP z x = true) := by
@@ -120,7 +121,7 @@ theorem fillYly_complete (r : Rule) (p : Inst) (n : Nat) (l : List Inst) (hr : W
       · intro h _ _; omega
     have hB : 2099 < p.y + ylyFuel nti := by unfold ylyFuel; omega
     have hcomp := aLoop_complete (mkFillCtx r p nti) 64 _ _ _ (yly_loopHyp r p nti hr hp hsup hy)
-      (yly_targetHyp r p nti hr hp hs hsup hy) (by decide) (ylyFuel nti) p.y 64 {} hI hB x hT
+      (yly_targetHyp r p nti hr hp hsup hy) (by decide) (ylyFuel nti) p.y 64 {} hI hB x hT
     have hbase := aLoop_base (mkFillCtx r p nti) 64 (fun y : Nat => y) (yE r p nti)
       (fun y => (y + r.inter) % u32) (ylyFuel nti) p.y 64 {} rfl (Nat.zero_le _)
     rw [← hsim.1, ← hsim.2.1] at hcomp
